@@ -32,7 +32,7 @@ var (
 	}
 	c15CriticalNames = []string{"synchronous", "query_only", "wal_autocheckpoint", "journal_mode", "wal_checkpoint"}
 	c15Harmless      = []string{"foreign_keys", "cache_size", "user_version", "table_info", "busy_timeout", "synchronousx", "xsynchronous"}
-	c15Fillers       = []string{" ", " ", "  ", "\t", "\n", "\r\n", "\f", " \v", "\n\v ", "/**/", "/* c */", " /* ; */ ", " -- c\n", "--\n"}
+	c15Fillers       = []string{" ", " ", "  ", "\t", "\n", "\r\n", "\f", " \v", "\n\v ", "/**/", "/* c */", " /* ; */ ", " -- c\n", "--\n", "/*/ */", "/*/*/", "/***/", "/* /* */", "/*/ ; */ ", "/* * / */", "/*--*/"}
 )
 
 func c15Case(r *vfRng, s string) string {
@@ -377,7 +377,9 @@ func TestVerifC15(t *testing.T) {
 		"SELECT 1; PRAGMA synchronous=1", `PRAGMA "synchronous"=3`, "PRAGMA main . synchronous = 2", "PRAGMA/**/wal_checkpoint(TRUNCATE)",
 		"EXPLAIN PRAGMA synchronous=1", "EXPLAIN QUERY PLAN PRAGMA query_only=1", "PRAGMA wal_checkpoint", "PRAGMA synchronous=1", "PRAGMA synchronous",
 		"\xef\xbb\xbfPRAGMA synchronous=1", "PRAGMA synchronous\x00=3", "PRAGMA\x0bsynchronous=3",
-		"PRAGMA \x0bsynchronous=3", "PRAGMA main\f\x0b.synchronous(1)", "PRAGMA synchronous \x0b= 2", "\n\x0bPRAGMA query_only=1"} {
+		"PRAGMA \x0bsynchronous=3", "PRAGMA main\f\x0b.synchronous(1)", "PRAGMA synchronous \x0b= 2", "\n\x0bPRAGMA query_only=1",
+		// comments whose body starts or ends with the delimiter's own characters (SQLite: a comment runs to the next */ after the opening /*)
+		"/*/ */ PRAGMA journal_mode=DELETE", "/*/ c */PRAGMA main.synchronous=2", "SELECT 1; /*/*/ pragma Query_Only(1)", "/***/PRAGMA wal_autocheckpoint=7", "/* /* */ PRAGMA synchronous=1", "PRAGMA/*/ */synchronous=2"} {
 		texts = append(texts, c15Text{sql: s, features: c15FeaturesOf(s)})
 	}
 	n := vfScale(900, 40000)
